@@ -32,7 +32,7 @@ KMAX = 1e8
 
 def floors(tier):
     return {"gcp_judged": 3000, "outward_on_bound": 800, "breakpoints_crossed_inputs": 800, "c_checked": 1500,
-            "intercepted_calls": 200, "tie_inputs": 600, "inputs_with_theta_exactly_one": 40, "inputs_with_empty_memory_and_theta_not_one": 100, "grazing_inputs": 10000, "inputs_with_direction_exactly_orthogonal_to_the_memory": 300, "inputs_with_models_used_in_turn": 800, "grazing_inputs_after_crossed_breakpoints": 5000, "runs_with_objective_redefined": 40, "runs_with_objective_redefined_between_checkpoint_and_restart": 15, "__nontrivial__": 200}
+            "intercepted_calls": 200, "tie_inputs": 600, "inputs_with_theta_exactly_one": 40, "inputs_with_empty_memory_and_theta_not_one": 100, "grazing_inputs": 10000, "inputs_with_direction_exactly_orthogonal_to_the_memory": 300, "inputs_with_models_used_in_turn": 800, "grazing_inputs_after_crossed_breakpoints": 5000, "runs_with_objective_redefined": 40, "direct_calls_traced_through_a_debug_level_logger": 2000, "direct_calls_traced_through_an_info_level_logger": 1000, "runs_traced_through_a_debug_level_logger": 10, "runs_with_objective_redefined_between_checkpoint_and_restart": 15, "__nontrivial__": 200}
 
 
 def exhaustive(tier):
@@ -315,10 +315,27 @@ def cases(tier, seed):
                           "eps_SY": float(gen.pick(rng, [2.2e-16, 1e-2, 0.1, 0.3])), "on_restart": bool(i % 2 == 1)}}
 
 
+_LOGCFG = {"n": 0, "debug": None, "info": None, "counts": {}}
+
+
 def call_gcp(x, g, lb, ub, mats):
+    """The routine under every tracing configuration a caller may choose (verbosity is not part of the mathematics): silent three
+    times out of six, otherwise a logger at DEBUG or INFO level with iprint 99 / 101 / 1000."""
+    import logging
+
     from lbfgsb.cauchy import get_cauchy_point
 
-    return get_cauchy_point(x.copy(), g.copy(), lb.copy(), ub.copy(), mats, 1, -1, None)
+    if _LOGCFG["debug"] is None:
+        _LOGCFG["debug"] = probes.CapturingLogger("verif-c08-debug")
+        _LOGCFG["info"] = probes.CapturingLogger("verif-c08-info")
+        _LOGCFG["info"].logger.setLevel(logging.INFO)
+    k = _LOGCFG["n"] % 6
+    _LOGCFG["n"] += 1
+    iprint, lg = [(-1, None), (1000, "debug"), (-1, None), (101, "info"), (-1, None), (99, "debug")][k]
+    if lg is not None:
+        del _LOGCFG[lg].records[:]
+        _LOGCFG["counts"][lg] = _LOGCFG["counts"].get(lg, 0) + 1
+    return get_cauchy_point(x.copy(), g.copy(), lb.copy(), ub.copy(), mats, 1, iprint, None if lg is None else _LOGCFG[lg].logger)
 
 
 def is_nontrivial(x, g, lb, ub, ref):
@@ -327,6 +344,10 @@ def is_nontrivial(x, g, lb, ub, ref):
 
 def one_input(out, x, g, lb, ub, mats, B, where, tags, keys):
     try:
+        if _LOGCFG["n"] % 6 in (1, 5):
+            out.count("direct_calls_traced_through_a_debug_level_logger")
+        elif _LOGCFG["n"] % 6 == 3:
+            out.count("direct_calls_traced_through_an_info_level_logger")
         xcp, c = call_gcp(x, g, lb, ub, mats)
     except Exception as e:
         if gen.pg_inf(x, g, lb, ub) > 0:
@@ -633,6 +654,9 @@ def run(spec):
                 del n0
 
             cfg = dict(jac="callable", maxcor=spec["maxcor"], maxiter=spec["maxiter"], ftol=0.0, gtol=1e-10, maxfun=3000, eps_SY=spec.get("eps_SY", 2.2e-16))
+            if int(P.spec["seed"]) % 3 == 1:
+                cfg.update(logger=True, iprint=[101, 1000, 99][int(P.spec["seed"]) % 9 // 3])  # traced through the user's (DEBUG-level) logger
+                out.count("runs_traced_through_a_debug_level_logger")
             with probes.Intercept(M, ["get_cauchy_point"]) as ic:
                 ic.on_event = on_event
                 if spec.get("switch") and spec["switch"].get("on_restart"):
